@@ -48,9 +48,9 @@ SPEC = {'dd': (('dyn',), ('dyn',)), 'ddc': (('dyn',), ('dyn',)), 'fd6': (('dyn',
         'df2': (('dim', 2), ('dyn',)), 'df3c': (('dim', 3), ('dyn',)), 'bb': (('maxdim', 3), ('cap', 8)), 'db3': (('maxdim', 3), ('dyn',)),
         'b8d': (('dyn',), ('cap', 8)), 'ff': (('dim', 2), ('fixed', 6)), 'hyb': (('dim', 2), ('cap', 8)), 'dyn': (('dyn',), ('dyn',)),
         'lf': (('clip', (2, 3)), ('fixed', 6)), 'lfc': (('clip', (2, 3)), ('fixed', 6))}
-GROUP = {'dd': 0, 'ddc': 0, 'fd6c': 0, 'df2': 0, 'bb': 0, 'hyb': 0, 'lf': 0,
-         'fd6': 1, 'df3c': 1, 'db3': 1, 'b8d': 1, 'ff': 1, 'dyn': 1, 'lfc': 1}       # which TU serves a cast target
-DTYPES = {'i8': 0, 'f64': 0, 'i64': 0, 'u8': 1, 'i16': 1}
+GROUP = {'dd': 0, 'fd6c': 0, 'bb': 0, 'lf': 0, 'ddc': 1, 'df2': 1, 'hyb': 1,
+         'fd6': 2, 'db3': 2, 'ff': 2, 'lfc': 2, 'df3c': 3, 'b8d': 3, 'dyn': 3}       # which TU serves a cast target
+DTYPES = {'i8': 0, 'f64': 1, 'i64': 1, 'u8': 2, 'i16': 3}
 LEN2 = {'df2', 'ff', 'hyb', 'lf', 'lfc'}          # shape type of compile-time length 2: the only sources castable to hyb
 NO_DCAST = {'bb', 'b8d'}                          # cast<T> does not compile for static_vector buffers
 # destinations never asked to take a shape they refuse: the default state of hybrid_ndarray is not modelled; a refused cast
@@ -94,12 +94,18 @@ def castable(src, dst):
 
 
 def harness_specs(tier):
-    sp = [dict(name='h_c20', src='h_c20.cpp', flavour='fast'), dict(name='h_c20_san', src='h_c20.cpp', flavour='san-dbg')]
-    for g in (0, 1):
+    # -g0: the sanitizer flavour without debug info (halves the build time; crash kinds are read from the report text)
+    sp = [dict(name='h_c20_san', src='h_c20.cpp', flavour='san-dbg', extra=['-g0']), dict(name='h_c20', src='h_c20.cpp', flavour='fast')]
+    for g in range(4):
+        sp.append(dict(name='h_c20c%d_san' % g, src='h_c20c.cpp', flavour='san-dbg', extra=['-DC20_GROUP=%d' % g, '-g0']))
+    for g in range(4):
         sp.append(dict(name='h_c20c%d' % g, src='h_c20c.cpp', flavour='fast', extra=['-DC20_GROUP=%d' % g]))
-        sp.append(dict(name='h_c20c%d_san' % g, src='h_c20c.cpp', flavour='san-dbg', extra=['-DC20_GROUP=%d' % g]))
-    sp += [dict(name='h_c20k', src='h_c20k.cpp', flavour='fast'), dict(name='h_c20k_san', src='h_c20k.cpp', flavour='san-dbg'),
-           dict(name='h_c20m', src='h_c20m.cpp', flavour='fast'), dict(name='h_c20m_san', src='h_c20m.cpp', flavour='san-dbg')]
+    for l in (0, 1):
+        sp.append(dict(name='h_c20m%d_san' % l, src='h_c20m.cpp', flavour='san-dbg', extra=['-DC20_LAY=%d' % l, '-g0']))
+        sp.append(dict(name='h_c20k%d_san' % l, src='h_c20k.cpp', flavour='san-dbg', extra=['-DC20_KSRC=%d' % l, '-g0']))
+    for l in (0, 1):
+        sp.append(dict(name='h_c20m%d' % l, src='h_c20m.cpp', flavour='fast', extra=['-DC20_LAY=%d' % l]))
+        sp.append(dict(name='h_c20k%d' % l, src='h_c20k.cpp', flavour='fast', extra=['-DC20_KSRC=%d' % l]))
     return sp
 
 
@@ -279,7 +285,7 @@ def gen_x(tier, rng):
     # random sequences of <= 6 operations (fills after a resize are not counted)
     count = 1500 if tier == 'quick' else 12000
     for _ in range(count):
-        g = rng.randint(0, 1)
+        g = rng.randint(0, 3)
         kind = rng.choice(XKINDS)
         start = kind
         shape = default_shape(kind)
@@ -353,7 +359,7 @@ def gen_kind(tier, rng):
                 want = 'ok shape=%s strides=%s astrides=%s n=%d data=%s' % (fmt(sh), fmt(row_strides(sh)), fmt(row_strides(sh)), N,
                                                                            fmt(logical.flatten(order='C')))
                 n += 1
-                yield Case('castkind src=%s shape=%s tag=%s base=%d' % (src, fmt(sh), t, base), 'h_c20k' + ('_san' if n % 2 else ''),
+                yield Case('castkind src=%s shape=%s tag=%s base=%d' % (src, fmt(sh), t, base), 'h_c20k%d' % (src == 'cfc') + ('_san' if n % 2 else ''),
                            oracle=want, tags=['castkind', 'tag=' + t, 'src=' + src])
 
 
@@ -423,12 +429,12 @@ def mview_oracle(s, cm, view):
 def gen_mviewall(tier, rng):
     n = 0
     E = 3 if tier == 'quick' else 4
-    hs = ['h_c20m', 'h_c20m_san']
 
     def case(req, oracle, tags, nontrivial=True):
         nonlocal n
         n += 1
-        return Case(req, hs[n % 2], oracle=oracle, tags=['mviewall'] + tags, nontrivial=nontrivial)
+        h = 'h_c20m%d%s' % (1 if ' lay=c ' in req else 0, '_san' if n % 2 else '')
+        return Case(req, h, oracle=oracle, tags=['mviewall'] + tags, nontrivial=nontrivial)
 
     all_shapes = list(shapes(3, E, min_rank=1))
     for s in all_shapes:
@@ -612,11 +618,10 @@ def post(cases, tier):
                     hit('colmajor_reported_strides', c)
                 else:
                     bad.append((c, 'strides %s do not match shape %s / layout after %s' % (strides, shape, op)))
-            if clipped_colmajor_state(kind, shape):
-                tainted = True
             if astrides is not None and astrides != want:
                 if clipped_colmajor_state(kind, shape) and astrides == [min(x, 1) for x in want]:
                     hit('clipped_colmajor_state', c)
+                    tainted = True         # cells alias from here on: values are judged by this finding
                 else:
                     bad.append((c, 'addressing strides %s do not match shape %s / layout of kind %s after %s' % (astrides, shape, kind, op)))
             if op.startswith('resize:'):
